@@ -804,6 +804,31 @@ def bounded_string_cases(rng):
     return out
 
 
+def bare_prefix_cases():
+    """a bare name next to numbered names of the SAME prefix (`t` beside `t1`, `t[1-3]`, `t0`, `t01`): hostrange_prefix_cmp separates a
+    host without a numeric suffix from the numbered hosts of its prefix, and push_range / join / sort / find / within_range all lean on
+    that (the random generators only draw names that end in digits or carry a foreign suffix).  Deterministic: consumes no randomness."""
+    out = []
+    for pf in (b"t", b"foo", b"x-", b"a1b"):
+        num = [pf + b"1", pf + b"2", pf + b"3"]
+        seqs = [[pf] + num, num + [pf], [pf + b"1", pf, pf + b"2"], [pf, pf + b"0", pf + b"1"], [pf, pf + b"01", pf + b"02"],
+                [pf, pf, pf + b"1"], [pf + b"0", pf, pf + b"1", pf]]
+        for names in seqs:
+            probes = sorted(set(names + [pf, pf + b"1", pf + b"0"]))
+            for sort in (False, True):
+                ops = [("CN", 0)] + [("H", 0, nm) for nm in names] + ([("S", 0)] if sort else []) + [("K", 0)]
+                ops += [("F", 0, q) for q in probes] + [("T", 0, i) for i in range(len(names) + 1)]
+                ops += [("R", 0, 0), ("RT", 0, 1), ("K", 1), ("IC", 1), ("IN", 1, 0, 20), ("D", 0, pf), ("K", 0), ("R", 0, 0), ("D", 0, pf + b"1"), ("R", 0, 0)]
+                out.append(("bare-prefix", ops))
+        for e in (pf + b"," + pf + b"[1-3]", pf + b"[1-3]," + pf, pf + b"," + pf + b"1", pf + b"1," + pf, pf + b"," + pf + b"[0-2]",
+                  pf + b"," + pf + b"[01-03]", pf + b"[1-2]," + pf + b"," + pf + b"[3-4]"):
+            for sort in (False, True):
+                ops = [("C", 0, e)] + ([("S", 0)] if sort else []) + [("K", 0), ("F", 0, pf), ("F", 0, pf + b"1"), ("F", 0, pf + b"3"), ("T", 0, 0), ("T", 0, 1),
+                       ("R", 0, 0), ("RT", 0, 1), ("K", 1), ("CN", 2), ("P", 2, e), ("H", 2, pf), ("H", 2, pf + b"1"), ("K", 2), ("R", 2, 0), ("Q", 2), ("R", 2, 0)]
+                out.append(("bare-prefix", ops))
+    return out
+
+
 def generate(rng, n):
     cases = []
     for i in range(n):
@@ -1275,14 +1300,14 @@ def run(ctx, V):
     V.rule = ("structured op sequences (1-30 ops over 1-4 lists: create/push/push_host/push_list/copy/delete_host/delete_nth/find/nth/"
               "count/sort/libc-qsort/ranged_string(n)/create-of-ranged-string/iterator create,next,reset,destroy) over the boundary alphabet "
               "(suffix widths 0-10, leading zeros, 9|10 99|100 09|10 099|0100, values around 2^25, 2^31, 2^32, 2^64, digit-terminated bracket "
-              "prefixes, suffix after bracket, 62-81 character names, MAX_RANGE-1..+1, MAX_RANGES-1..+1, 1021-1030 byte tokens, malformed "
+              "prefixes, suffix after bracket, a bare name beside numbered hosts of its own prefix (directed), 62-81 character names, MAX_RANGE-1..+1, MAX_RANGES-1..+1, 1021-1030 byte tokens, malformed "
               "expressions) + the conf_exp_aliases iterator pattern + compress/expand round trips + corpus; a case is non-trivial if some "
               "state holds a range of more than one host or the case ends in a refusal / non-Ok outcome; distinct = distinct op lists; "
               "R-HLO: the four host-list oracles of the client layer (expand / ranged sorted, by push_host and by push / ranged plain / sorted) on "
               "generated expressions and name lists (incl. CR, high bytes, list syntax inside names), non-trivial = expression with brackets or "
               "separators, list of two or more names")
     n = 1500 if quick else 24000
-    cases = load_corpus() + bounded_string_cases(ctx.rng) + generate(ctx.rng, n)
+    cases = load_corpus() + bounded_string_cases(ctx.rng) + bare_prefix_cases() + generate(ctx.rng, n)
     t0 = time.time()
     nv, nd = 0, 0
     step = 4000
